@@ -8,6 +8,21 @@
 # rule: how cases are generated and what makes one non-trivial / distinct (copied into evidence)
 
 PROPS = {
+    "C05": {
+        "level": "exploration",
+        "rule": "rapid generates stateful sequences (3..35 actions) on one repository (go-git with persisted clocks, or the "
+                "in-memory backend): Increment, Witness (small / older / huge values), new bug, edit+commit, read all, a peer whose "
+                "clock jumps far ahead edits and pushes, pull (fetch+merge), close and re-open with the bug clock loader, delete "
+                "one or all clock files then re-open. Model: lower bound per clock = max of everything incremented, witnessed, "
+                "read or merged (reset to the maximum stored in local commits when its file is deleted). Oracle after every action: "
+                "no clock below its bound; every new commit carries an edit time above the clock's previous value and above every "
+                "edit time stored in a local commit (independent reader); the repository reads back what it wrote. "
+                "TestC05CLI drives the real binary with clock files deleted between commands. Non-trivial: a re-open or clock "
+                "deletion after a peer merge raised the clock (go-git) / a sequence of >5 actions (memory). Distinct: action-kind sequence.",
+        "assumptions": ["remote-tracking refs fetched but not merged are not part of what a clock must dominate",
+                        "values passed to a bare Witness are legitimately forgotten when the clock file is deleted"],
+        "tests": [{"name": "TestC05Clocks", "quick": 400, "shards_quick": 2, "thorough": 1500, "shards": 16}],
+    },
     "C04": {
         "level": "exploration",
         "rule": "rapid generates 1..5 commit chunks of 1..5 operations over all 8 kinds (valid unicode / whitespace-edged / long / "
@@ -96,6 +111,13 @@ PROPS = {
 
 # Text for MANIFEST.json, per claimed property.
 MANIFEST_TEXT = {
+    "C05": {
+        "technique": "stateful property-based testing (rapid): clock/commit/merge/re-open/delete sequences vs a max-of-everything-seen model, on persisted and in-memory clocks",
+        "level_text": "Model-based stateful testing: a reference lower bound per clock is maintained across generated action sequences "
+                      "including restarts and clock-file loss; every commit's stored edit time is read back independently.",
+        "design_ref": "DESIGN.md §4 C05",
+        "level_note": "Trusted: the model of what a clock must dominate (see assumptions); file deletion stands for 'clocks missing'.",
+    },
     "C04": {
         "technique": "property-based testing (rapid): round trip of generated operation sequences through git, a second replica, the cache and both backends, with an independent sha256/JSON reader for the id laws",
         "level_text": "Round-trip oracle over generated operation sequences and chunkings; ids and payloads are re-derived from the raw "
